@@ -1,7 +1,7 @@
 """C01.c: pairing + emission. Two adjacent documented commands of shard-constant kinds; the whole page is compared with
 spec_render by ONE equality: each doc line occurs once, in order, inside its own entry's directive, at that directive's depth."""
 import hc, prog
-from typing import List
+from typing import List, Tuple
 from cminx.config import Settings
 
 K1 = @@K1@@
@@ -14,18 +14,23 @@ hc.shim_re("real")
 hc.quiet_logging()
 
 
-def _ok(t: str) -> bool:
-    return chr(10) not in t and chr(13) not in t and "]]" not in t
+NCP = @@NCP@@        # (N1 + N2) * L
 
 
-def check(t: List[str], u: List[str]) -> bool:
+def check(cps: $$CPS$$) -> bool:
     """
-    pre: len(t) == N1 and len(u) == N2 and all(len(x) == L and _ok(x) for x in t) and all(len(x) == L and _ok(x) for x in u)
+    pre: hc.cps_ok(cps, bad=(10, 13))
     post: _
     """
+    pc = hc.Pieces(cps)
+    t = [pc.take(L) for _ in range(N1)]
+    u = [pc.take(L) for _ in range(N2)]
+    for x in t + u:
+        if "]]" in x:
+            return True          # outside the canonical form
     b1 = hc.canon_block(IND, t); c1 = "".join(x + chr(10) for x in t)
     b2 = hc.canon_block("", u); c2 = "".join(x + chr(10) for x in u)
     cmds = prog.documented_unit(K1, b1, c1, "1") + prog.documented_unit(K2, b2, c2, "2")
     got = prog.real_page(cmds, Settings())
     exp = prog.spec_page(cmds)
-    return hc.report(got == exp, t=t, u=u)
+    return hc.report(got == exp, cps=cps)
